@@ -1,80 +1,118 @@
 /-
-Driver glue for M-Dirty: the tree (parent links) lives here; paths are computed with fuel.
-Not part of the proved core.
+Driver glue for M-DirtyTree / M-Dirty.  The model is told the initial tree (shape, kinds, flags) and then, per
+operation, only `(mut <receiver> <kind> "<mutator>" effective|same)`, `(hold x)`, `(release x)`: which objects a
+call touches is computed by the model from its own tree and the target table.  An operation, kind or mutator it does
+not know prints `bad-op`.  Not part of the proved core.
 -/
 import DefconModel.Util.SExp
-import DefconModel.Dirty
+import DefconModel.DirtyTree
 
 namespace DefconModel
 namespace Dirty
-open SExp
+open SExp DirtyTree
 
 structure DState where
-  parents : List (Nat × Option Nat) := []
-  s : State := {}
+  ts : TState := {}
 
-def pathOf (parents : List (Nat × Option Nat)) : Nat → Nat → List Nat
-  | 0, x => [x]
-  | fuel + 1, x =>
-    match AL.get? parents x with
-    | some (some p) => x :: pathOf parents fuel p
-    | _ => [x]
+def kindNames : List (String × Kind) :=
+  [("font", .font), ("layerSet", .layerSet), ("layer", .layer), ("glyph", .glyph), ("contour", .contour),
+   ("component", .component), ("anchor", .anchor), ("guideline", .guideline), ("image", .image), ("lib", .lib),
+   ("info", .info), ("kerning", .kerning), ("groups", .groups), ("features", .features), ("images", .images),
+   ("data", .data)]
+
+def kindOf? (s : String) : Option Kind := (kindNames.find? (fun p => p.1 = s)).map Prod.snd
+def kindName (k : Kind) : String := ((kindNames.find? (fun p => p.2 = k)).map Prod.fst).getD "?"
+
+def asKind? : SExp → Option Kind
+  | .atom s => kindOf? s
+  | _ => none
+
+/-- kinds whose own data the harness fingerprints: an effective change of such an object is always seen -/
+def fpKind : Kind → Bool
+  | .contour | .component | .anchor | .guideline | .image | .lib => true
+  | _ => false
+
+def parseNodes (xs : List SExp) : Option (List (Nat × Node)) :=
+  xs.mapM fun x => match x with
+    | .list [i, p, k] => do
+      let i ← asNat? i
+      let p ← asInt? p
+      let k ← asKind? k
+      some (i, { kind := k, parent := if p < 0 then none else some p.toNat })
+    | _ => none
+
+/-- numbered 0, 1, 2, … in order, every parent older than its child -/
+def wellNumbered : Nat → List (Nat × Node) → Bool
+  | _, [] => true
+  | n, (i, nd) :: rest =>
+    i == n && (match nd.parent with | some p => decide (p < i) | none => true) && wellNumbered (n + 1) rest
 
 def setOf (xs : List SExp) : SExp := tagged "set" xs
 
-def parseNodes (xs : List SExp) : Option (List (Nat × Option Nat)) :=
-  xs.mapM fun x => match x with
-    | .list [i, p] => do
-      let i ← asNat? i
-      let p ← asInt? p
-      some (i, if p < 0 then none else some p.toNat)
-    | _ => none
+def kindAt (t : Tree) (x : Nat) : Option Kind := (t[x]?).map (·.kind)
 
-partial def driverStep (d : DState) (line : SExp) : DState × SExp :=
-  let out (d' : DState) (old : DState) : SExp :=
-    .list [tagged "dirty" [setOf (d'.s.dirty.map ofNat)],
-           tagged "changed" [setOf ((d'.s.log.drop old.s.log.length).eraseDups.map ofNat)]]
+/-- what one operation did, in the terms the harness observes on the implementation -/
+def report (old new : TState) : SExp :=
+  let n0 := old.tree.length
+  let ids := List.range new.tree.length
+  let dirtyNow (j : Nat) : Bool := decide (j ∈ new.s.dirty) && attached new.tree j
+  let dirtyBefore (j : Nat) : Bool := decide (j ∈ old.s.dirty) && attached old.tree j
+  let newLog := new.s.log.drop old.s.log.length
+  let newHits := new.hits.drop old.hits.length
+  let evid := ids.filter fun j =>
+    decide (j < n0) && attached new.tree j &&
+      ((dirtyNow j && !dirtyBefore j) || decide (j ∈ newLog) ||
+       (decide (j ∈ newHits) && ((kindAt new.tree j).map fpKind).getD false))
+  let deepest := evid.filter fun j => !(evid.any fun c => decide (j ∈ up new.tree c))
+  let fresh := (ids.filter fun j => decide (n0 ≤ j)).map fun j =>
+    SExp.list [ofNat j, (match parentOf new.tree j with | some p => ofNat p | none => ofInt (-1)),
+               .atom (((kindAt new.tree j).map kindName).getD "?")]
+  let gone := (List.range n0).filter fun j => attached old.tree j && !attached new.tree j
+  .list [tagged "dirty" [setOf ((ids.filter dirtyNow).map ofNat)],
+         tagged "changed" [setOf (((newLog.filter fun j => decide (j < n0)).eraseDups).map ofNat)],
+         tagged "touched" [setOf (deepest.map ofNat)],
+         tagged "new" [.list fresh],
+         tagged "gone" [setOf (gone.map ofNat)]]
+
+def driverStep (d : DState) (line : SExp) : DState × SExp :=
+  let fin (ts' : TState) : DState × SExp := ({ ts := ts' }, report d.ts ts')
   match line with
   | .list [.atom "init", .list nodes, dirty] =>
     match parseNodes nodes, asListOf? asNat? dirty with
-    | some ns, some ds => ({ parents := ns, s := { dirty := ds } }, .atom "ok")
-    | _, _ => (d, .atom "bad-op")
-  | .list (.atom "seq" :: inner) =>
-    let d' := inner.foldl (fun acc l => (driverStep acc l).1) d
-    (d', out d' d)
-  | .list [.atom "drop", i] =>
-    -- the object left the font (removed by the mutator): it is no longer part of the compared tree
-    match asNat? i with
-    | some i => let d' := { d with s := { d.s with dirty := d.s.dirty.filter (· ≠ i) } }; (d', out d' d)
-    | none => (d, .atom "bad-op")
-  | .list [.atom "skip"] => (d, .list [.atom "skip"])
-  | .list [.atom "same", _] => (d, out d d)
-  | .list [.atom "grow", .list nodes, dirty, inner] =>
-    match parseNodes nodes, asListOf? asNat? dirty with
     | some ns, some ds =>
-      -- the inner operation ran while the new objects were being created: their flags are as the harness saw them
-      let d1 := { d with parents := d.parents ++ ns }
-      let (d2, _) := driverStep d1 inner
-      let d3 := { d2 with s := { d2.s with dirty := d2.s.dirty ++ ds.filter (fun x => x ∉ d2.s.dirty) } }
-      (d3, out d3 d)
+      if wellNumbered 0 ns then ({ ts := { tree := ns.map Prod.snd, s := { dirty := ds } } }, .atom "ok")
+      else (d, .atom "bad-op")
     | _, _ => (d, .atom "bad-op")
-  | .list [.atom "touch", i] =>
-    match asNat? i with
-    | some i =>
-      match pathOf d.parents 32 i with
-      | x :: rest => let d' := { d with s := touch d.s x rest }; (d', out d' d)
-      | [] => (d, .atom "bad-op")
+  | .list [.atom "skip"] => (d, .list [.atom "skip"])
+  | .list [.atom "save", .atom how, dirty] =>
+    -- the font was written (or the attempt failed): which flags a save clears is C06's subject; the model is told the
+    -- flags afterwards, exactly as it is told the initial ones
+    match asListOf? asNat? dirty with
+    | some ds =>
+      let ts' := { d.ts with s := { d.ts.s with dirty := ds } }
+      ({ ts := ts' }, .list [tagged "saved" [.atom how],
+        tagged "dirty" [setOf (((List.range ts'.tree.length).filter fun j => decide (j ∈ ds) && attached ts'.tree j).map ofNat)]])
     | none => (d, .atom "bad-op")
+  | .list [.atom "nop"] => fin d.ts
+  | .list [.atom "mut", i, k, .str name, .atom mode] =>
+    match asNat? i, asKind? k with
+    | some i, some k =>
+      match lookup k name with
+      | some e =>
+        if kindAt d.ts.tree i = some k && attached d.ts.tree i then
+          if mode = "effective" && e.effective then fin (applyMut d.ts i e false)
+          else if mode = "same" && e.guarded then fin (applyMut d.ts i e true)
+          else (d, .atom "bad-op")
+        else (d, .atom "bad-op")
+      | none => (d, .atom "bad-op")
+    | _, _ => (d, .atom "bad-op")
   | .list [.atom "hold", i] =>
     match asNat? i with
-    | some i => let d' := { d with s := hold d.s i }; (d', out d' d)
+    | some i => fin (holdT d.ts i)
     | none => (d, .atom "bad-op")
   | .list [.atom "release", i] =>
     match asNat? i with
-    | some i =>
-      match pathOf d.parents 32 i with
-      | x :: rest => let d' := { d with s := release d.s x rest }; (d', out d' d)
-      | [] => (d, .atom "bad-op")
+    | some i => fin (releaseT d.ts i)
     | none => (d, .atom "bad-op")
   | _ => (d, .atom "bad-op")
 
